@@ -73,6 +73,29 @@ def run(ck):
                 MG.Def(mname, no + 'Al', 'alias', '%sAl ::= %sAl' % (no, nm))]
         ms2.modules = [(mname, {'tagging': '', 'ext': False}, defs)]
         inputs.append(ms2)
+    # inputs that raise warnings (the multiset of warnings is part of the result), and a module that imports several values whose
+    # governing types it does not import (the linker adds those types to the import list itself)
+    for wi in range(4 if quick else 24):
+        ms = MG.gen_module_set(ck.rng, 70 + wi, max_defs=4, nmods=2)
+        mname, opts, defs = ms.modules[0]
+        defs.append(MG.Def(mname, 'WarnInv%d' % wi, 'int', 'WarnInv%d ::= INTEGER (1%d..1)' % (wi, wi), status='warned'))
+        if wi % 2:
+            mname2, opts2, defs2 = ms.modules[-1]
+            defs2.append(MG.Def(mname2, 'WarnReal%d' % wi, 'real', 'WarnReal%d ::= REAL' % wi, status='warned'))
+        inputs.append(ms)
+    for vi, names in enumerate(itertools.permutations(['Count', 'Ratio', 'Switch', 'Tag'], 4) if not quick else [('Count', 'Ratio', 'Switch', 'Tag'), ('Tag', 'Switch', 'Count', 'Ratio')]):
+        if vi >= 6:
+            break
+        ms = MG.ModuleSet()
+        lim, usr = 'Limits%d' % vi, 'User%d' % vi
+        tdefs = {'Count': 'INTEGER (0..100)', 'Ratio': 'INTEGER (0..7)', 'Switch': 'BOOLEAN', 'Tag': 'IA5String'}
+        vals = {'Count': ('maxCount', '5'), 'Ratio': ('fullRatio', '7'), 'Switch': ('enabled', 'TRUE'), 'Tag': ('defaultTag', '"x"')}
+        d1 = [MG.Def(lim, n, 'type', '%s ::= %s' % (n, tdefs[n])) for n in names]
+        d1 += [MG.Def(lim, vals[n][0], 'value', '%s %s ::= %s' % (vals[n][0], n, vals[n][1]), is_value=True) for n in names]
+        d2 = [MG.Def(usr, 'Uu%d' % vi, 'seq', 'Uu%d ::= SEQUENCE { a INTEGER (0..200) DEFAULT maxCount, b INTEGER DEFAULT fullRatio, c BOOLEAN DEFAULT enabled, d IA5String DEFAULT defaultTag }' % vi,
+                     deps=[vals[n][0] for n in names])]
+        ms.modules = [(lim, {'tagging': 'AUTOMATIC TAGS', 'ext': False}, d1), (usr, {'tagging': 'AUTOMATIC TAGS', 'ext': False}, d2)]
+        inputs.append(ms)
     jobs, meta = [], []
     for i, ms in enumerate(inputs):
         backend = 'ts' if i % 3 == 2 else 'rasn'
@@ -81,6 +104,13 @@ def run(ck):
         for desc, src in permutations_of(ck, ms, 2 if quick else 6):
             jobs.append({'sources': src, 'backend': backend})
             meta.append((i, desc))
+    for rep in range(3):
+        for m in range(len(meta)):
+            if meta[m][1] == 'reference' and m < len(jobs):
+                jobs.append(jobs[m])
+                meta.append((meta[m][0], 'repeat-%d' % (rep + 1)))
+        if rep == 0:
+            nrefs = sum(1 for x in meta if x[1] == 'reference')
     corpus_jobs = []
     if not quick and os.path.isdir(CORPUS):
         files = sorted(os.listdir(CORPUS))
